@@ -491,4 +491,40 @@ def dimensions(repo: Repo) -> RuleRun:
 
 dimensions.rule_id = "C03.DIMENSIONS"
 
-RULES = [registry_agreement, closure, invert_complete, validation_siblings, dimensions]
+def bracket_siblings(repo: Repo) -> RuleRun:
+    """The two root-finding relations for the cell-to-cell ratio (from count and start size / from count
+    and end size) search the same bracket; a deviation in one of them is a contradiction (Engler)."""
+    r = RuleRun(PROP, "C03.BRACKET-SIBLINGS", floor=2, what="sibling root searches use the same bracket expressions and the same sign test")
+    a = repo.func("grading.relations.get_c2c_expansion__count__start_size")
+    b = repo.func("grading.relations.get_c2c_expansion__count__end_size")
+
+    def brackets(fn: FuncInfo):
+        out = {}
+        for n in ast.walk(fn.node):
+            if isinstance(n, ast.Assign) and isinstance(n.targets[0], ast.Name) and n.targets[0].id in ("c_min", "c_max"):
+                out.setdefault(n.targets[0].id, set()).add(ast.unparse(n.value))
+        return out
+
+    ba, bb = brackets(a), brackets(b)
+    r.require(set(ba) == {"c_min", "c_max"} and set(bb) == {"c_min", "c_max"}, "c_min / c_max bracket assignments not found in both sibling relations")
+    for name in ("c_min", "c_max"):
+        r.check(
+            ba[name] == bb[name],
+            a,
+            f"{name}: {sorted(ba[name])}",
+            f"the bracket bound {name} differs between the sibling root searches: {a.name} uses {sorted(ba[name] - bb[name])} where {b.name} uses {sorted(bb[name] - ba[name])} "
+            "(both solve the same geometric series for the ratio; with a narrower bracket valid chops are rejected)",
+            a.node,
+            key=name,
+        )
+    # both refuse brackets without a sign change, and return brentq over exactly that bracket
+    for fn in (a, b):
+        src = ast.unparse(fn.node)
+        ok = "fexp(c_min) * fexp(c_max) >= 0" in src and "brentq(fexp, c_min, c_max)" in src
+        r.check(ok, fn, "sign change required, root searched in [c_min, c_max]", f"{fn.name} no longer checks the bracket for a sign change before brentq(fexp, c_min, c_max)", fn.node, key="sign-test")
+    return r
+
+
+bracket_siblings.rule_id = "C03.BRACKET-SIBLINGS"
+
+RULES = [registry_agreement, closure, invert_complete, validation_siblings, dimensions, bracket_siblings]
